@@ -18,6 +18,10 @@ import (
 	"github.com/miekg/dns"
 )
 
+// deterministic, poisoning buffer pool (see fk.PoisonPool): a reply packed into
+// a buffer that was never written, or read after its release, is 0xDD garbage.
+func init() { fk.PoisonPool() }
+
 // QSpec describes one client query message.
 type QSpec struct {
 	ID     uint16 `json:"id"`
